@@ -60,7 +60,7 @@ func protectedCells(p *Prog) []int {
 				}
 			case "lock":
 				walk(o.Body, append(append([]int(nil), held...), o.M))
-			case "catch":
+			case "catch", "block":
 				walk(o.Body, held)
 			}
 		}
@@ -89,7 +89,7 @@ func (sr *searcher) eager(s *mstate, i int) bool {
 		return true
 	}
 	switch o.Kind {
-	case "catch", "fail":
+	case "catch", "fail", "block", "exit":
 		return true
 	case "load", "store":
 		return o.X < len(sr.prot) && sr.prot[o.X] >= 0
